@@ -131,7 +131,8 @@ def threadNotes (t : Thread) (w : World) : List (Cv × Nk) :=
   match t.call, t.stat with
   | .close, .ready .sockAcq =>
     if w.s.kind = .dlc ∧ w.s.isEst ∧ w.s.bound then
-      [(.sendToken, .all), (.acksReady, .all)] ++ (if w.s.recvQ = [] then [] else closeNotes w.s.kind)
+      [(.sendToken, .all), (.acksReady, .all)] ++
+        (if w.closeClearsRecv ∨ w.s.recvQ = [] then [] else closeNotes w.s.kind)
     else closeNotes w.s.kind
   | .close, .parked .wTcoRecv _ => closeNotes w.s.kind
   | .recv, .ready .sockAcq =>
